@@ -84,10 +84,15 @@ def preprocess_orientation(ctx, rng):
         cur = float(sr.degrees_from_north)
         kw = dict(orient_to_degrees_from_north=tgt, filter_corner_frequencies_in_hz=[None, None], window_length_in_seconds=None, detrend=None)
         st = hvsrpy.HvsrPreProcessingSettings(**kw) if kind == "hvsr" else hvsrpy.PsdPreProcessingSettings(**kw)
+        again = (j % 4 >= 2)
         with quiet():
+            if again:
+                # the same recording object is preprocessed a second time (e.g. once for the HVSR and once for the PSD): the first call must have
+                # left it as it was, samples and orientation alike
+                hvsrpy.preprocess([sr], hvsrpy.HvsrPreProcessingSettings(**dict(kw, orient_to_degrees_from_north=float(rng.choice([0.0, 45.0, 200.0])))))
             out = hvsrpy.preprocess([sr], st)
         o = out[0]
-        cases.append(dict(kind=kind, deployed=dep, current=cur, target=tgt, ns=rec["ns"], ew=rec["ew"], impl_ns=o.ns.amplitude.tolist(), impl_ew=o.ew.amplitude.tolist(),
+        cases.append(dict(kind=kind, deployed=dep, current=cur, target=tgt, preprocessed_before=again, ns=rec["ns"], ew=rec["ew"], impl_ns=o.ns.amplitude.tolist(), impl_ew=o.ew.amplitude.tolist(),
                           impl_deg=float(o.degrees_from_north)))
         lines.append(f"orient {hexf(cur)} {hexf(cur if tgt is None else tgt)} {fvec(rec['ns'])} {fvec(rec['ew'])}")
     outs = run_driver(lines)
